@@ -361,6 +361,8 @@ class _VBytesMeta(type):
 
 class VBytes(builtins.bytes, metaclass=_VBytesMeta):
     def __new__(cls, x=b'', *a):
+        if type(x) is VByteArray:
+            return x.v
         if type(x) is SymBytes:
             return x
         if type(x) is SymInt:
@@ -374,6 +376,82 @@ class VBytes(builtins.bytes, metaclass=_VBytesMeta):
         if type(s) in (SymStr, SymDec, SymB64, SymText):
             raise ValueError('non-hexadecimal number found in fromhex() arg')
         return builtins.bytes.fromhex(s)
+
+
+class _VByteArrayMeta(type):
+    def __instancecheck__(cls, o):
+        return _isinstance(o, builtins.bytearray) or type(o) is VByteArray
+
+
+class VByteArray(metaclass=_VByteArrayMeta):
+    """shadow of `bytearray`: a growable byte string whose content may be symbolic (append-style use only)"""
+
+    def __init__(self, x=b''):
+        if type(x) is VByteArray:
+            x = x.v
+        elif _isinstance(x, builtins.int) and type(x) is not SymInt:
+            x = builtins.bytes(x)
+        elif type(x) is not SymBytes:
+            x = builtins.bytes(x)
+        self.v = x
+
+    def _cat(self, o):
+        if type(o) is VByteArray:
+            o = o.v
+        if type(o) is SymBytes or _isinstance(o, (builtins.bytes, builtins.bytearray)):
+            r = self.v + (builtins.bytes(o) if _isinstance(o, builtins.bytearray) else o)
+            return r
+        raise TypeError(f"can't concat {type(o).__name__} to bytearray")
+
+    def __iadd__(self, o):
+        self.v = self._cat(o)
+        return self
+
+    def __add__(self, o):
+        return VByteArray(self._cat(o))
+
+    def __radd__(self, o):
+        if _isinstance(o, builtins.bytes):
+            return VByteArray(o + self.v)
+        return NotImplemented
+
+    def extend(self, o):
+        self.v = self._cat(o)
+
+    def append(self, b):
+        if type(b) is SymInt:
+            self.v = self.v + b.to_bytes(1, 'big')
+        else:
+            self.v = self.v + builtins.bytes([b])
+
+    def __vf_len__(self):
+        return vlen(self.v)
+
+    def __len__(self):
+        return len(self.v)
+
+    def __getitem__(self, i):
+        r = self.v[i]
+        return VByteArray(r) if _isinstance(i, slice) else r
+
+    def __eq__(self, o):
+        if type(o) is VByteArray:
+            o = o.v
+        return self.v == o
+
+    def __ne__(self, o):
+        if type(o) is VByteArray:
+            o = o.v
+        return self.v != o
+
+    def __hash__(self):
+        raise TypeError("unhashable type: 'bytearray'")
+
+    def __iter__(self):
+        return iter(self.v)
+
+    def hex(self):
+        return self.v.hex()
 
 
 class _VStrMeta(type):
@@ -544,7 +622,7 @@ class Base64Shim:
 
 SHADOWS = {
     'len': vlen, 'range': vrange, 'int': VInt, 'bytes': VBytes, 'str': VStr, 'bool': VBool, 'bin': vbin, 'hex': vhex,
-    'min': vmin, 'max': vmax, '_vf_fstr_': vf_fstr,
+    'min': vmin, 'max': vmax, '_vf_fstr_': vf_fstr, 'bytearray': VByteArray,
 }
 
 MODULE_SHIMS = {'hashlib': HashlibShim(), 'math': MathShim(), 'base64': Base64Shim()}
